@@ -252,8 +252,6 @@ func vBatchDispatch(add bool, nObs int) {
 }
 func VerifC08_BatchDispatchAdd()      { vBatchDispatch(true, 1) }
 func VerifC08_BatchDispatchRemove()   { vBatchDispatch(false, 1) }
-func VerifC08T_BatchDispatchAdd2()    { vNoMul = true; vBatchDispatch(true, 2) }
-func VerifC08T_BatchDispatchRemove2() { vNoMul = true; vBatchDispatch(false, 2) }
 
 // ---- C08-H3 (set relations): observers of specific relation components fire iff ALL
 // their observed relations are in the set of relations whose target actually changed in
